@@ -112,7 +112,7 @@ def flatten(items):
 # a small family of ISAs with instructions of differing sizes, for the layout properties
 
 @st.composite
-def layout_isa(draw, address_sizes=(8, 12, 16, 16, 16, 24, 32), zones=False, redefine_global=False, blocks=False):
+def layout_isa(draw, address_sizes=(8, 12, 16, 16, 16, 24, 32, 10, 18), zones=False, redefine_global=False, blocks=False):
     asz = draw(st.sampled_from(address_sizes))
     endian = draw(isagen.endians)
     top = (1 << asz) - 1
